@@ -20,8 +20,8 @@ uses a text no definition matches.
 import itertools
 
 OUTCOMES = ("pass", "fail", "error", "pending", "undefined", "skip", "kbi", "abort")
-# + "convert": a typed parameter whose converter raises (used by C02 only)
-NONPASS = OUTCOMES[1:]
+# + "convert": a typed parameter whose converter raises (C02 enumerates it as an outcome of its own; since round 13 it is also a deviation of every run-level check)
+NONPASS = OUTCOMES[1:] + ("convert",)     # the default deviation alphabet of every run-level check
 PTAG = "<tg>"          # parametrised outline tag; the row supplies the value in column "tg"
 
 
@@ -343,6 +343,12 @@ def shapes(tier="quick"):
                 if f not in seen:
                     seen.add(f)
                     yield f
+    # degenerate but legal: an outline with a heading-only examples block beside a block that has rows
+    # (before / after it); the row-less block contributes no scenario
+    e_first = O2([((), ()), ((), (("pass",), ("pass",)))])
+    e_last = O2([((), (("pass",),)), ((), ())])
+    for f in (F((e_first,)), F((e_last, S())), F((S(), R((e_first,), bg=("pass",)))), F((e_last,), bg=("pass",))):
+        yield f
 
 
 def size(feature):
